@@ -151,7 +151,8 @@ def processLine (prop : String) (line : String) : String := Id.run do
           else if fails.isEmpty then "pass" else "fail:" ++ ",".intercalate (fails.take 4)
         let npanic := (impl.filter (· == ["panic"])).length
         let nunspec := (spec.filter (· == ["unspec"])).length
-        let tags := s!"{variant}:{dimsS}:ops={progToks.length}:panic={npanic}" ++
+        let zero := dims.any (· == 0)
+        let tags := s!"{variant}:r{dims.length}:{if zero then "empty" else "cells"}:{if npanic > 0 then "panics" else "nopanic"}" ++
           (if nunspec > 0 then ":ragged" else "")
         return s!"{id} corr={corr} twin={if corr == "ok" then "eq" else "ne:x"} maxdev=0 oracle={orc} mcls=ok icls=ok tags={tags}"
   | _ => return "? bad-line"
